@@ -7,6 +7,7 @@ HARNESS = {
                  cflags=['-O2']),
     'pack': dict(cpp=['h/h_pack.cpp'], c=['adp/adp_pack.c'], repo=['librfn/pack.c']),
     'mqseq': dict(cpp=['h/h_mqseq.cpp'], c=['adp/adp_mq.c'], repo=['librfn/messageq.c']),
+    'rotenc': dict(cpp=['h/h_rotenc.cpp'], c=['adp/adp_rotenc.c'], repo=['librfn/rotenc.c']),
     'list': dict(cpp=['h/h_list.cpp'], c=['adp/adp_list.c'], repo=['librfn/list.c']),
 }
 
@@ -31,6 +32,28 @@ PROPS = {
         require={'wrapped-with-two-outstanding': 1000, 'depth-1': 1000, 'depth-32': 1000, 'slack': 1000,
                  'send-out-of-claim-order-possible': 1000},
         assumptions=['releases follow receives in receive order (the only order the API documents)'],
+    ),
+    'C19': dict(
+        title='Rotary encoder count equals net detent crossings for any signal sequence',
+        rule='custom stage = breadth-first enumeration of every reachable (decoder, model) product state from the '
+             'initial state under all four inputs (pruned only where live and latched position differ by more than '
+             '3 clicks); rc stage = random walks of crank-k-clicks (k up to 20000, so the 8-, 14- and 16-bit wraps '
+             'are crossed both ways), quarter steps, bounce, invalid jumps, repeats; enum stage = every input '
+             'sequence of the given length. After every input: rotenc_count == latched position mod 256, '
+             'rotenc_count14 == latched position mod 2^14, low 8 bits agree, within one click of the true position '
+             '(when no invalid jump happened since the last detent). Non-trivial: a reading taken part-way through '
+             'a click within one click of a multiple of 256. Distinct = distinct product states / tapes.',
+        stages=[
+            dict(h='rotenc', mode='custom', what='reachable product state space (BFS)', workers=1),
+            dict(h='rotenc', mode='rc', what='random walks', quick=dict(cases=3000, len=200),
+                 thorough=dict(cases=100000, len=200)),
+            dict(h='rotenc', mode='enum', what='all input sequences', quick=dict(params=dict(ops=8)),
+                 thorough=dict(params=dict(ops=11))),
+        ],
+        require={'bounce': 100, 'invalid-jump': 100, 'part-way-through-a-click-next-to-a-multiple-of-256': 20,
+                 'product states (decoder x model)': 100000},
+        assumptions=['clockwise is 00->01->11->10->00 as the transition table in rotenc.c documents',
+                     '"never more than one click from the true position" is asserted only while no invalid two-bit jump has occurred since the last detent (invalid jumps can hide arbitrarily many quarter-steps from the detent latch)'],
     ),
     'C12': dict(
         title='Pack/unpack never leaves the buffer, fails stickily, and uses fixed byte order',
